@@ -4,6 +4,8 @@ EMPTYITER  both run_loop implementations keep an unconditional empty-iteration e
            exactly the guards `entry == pos` and `iters > min_iters` (plus `!is_initial_entry` in the PikeVM).
 ITERBUDGET in run_scm_loop the iteration budgets handed to the single-char-loop helpers add up to `max` on every
            path (greedy: (min, max); lazy: (min, min) then compute_max(limit = max - min)).
+           MINPOS: run_scm_loop_impl returns (position after the mandatory iterations, position after all): the first is
+           read between its two matcher loops, the second after both (the first is the floor for giving characters back).
 L1RESET    pikevm Loop1CharBody: whenever a State's ip is set to the loop's continuation, that State's loop1_iters
            is reset to 0 (the field's documented invariant: a fresh loop entry always observes 0).
            L1COUNT: a State whose pos takes the position reached by the one-character body (a value out of the attempt's
@@ -137,6 +139,55 @@ def check_iterbudget(facts):
     else:
         r.ok("%s budgets" % fn, "%d paths: budgets add up to max" % n)
     r.floor("paths", n, 8)
+    # MINPOS: the helper that drives the loop returns (position after the mandatory iterations, position after all of them): the
+    # first component is read between the `0..min` loop and the `0..(max - min)` loop, the second after both
+    hf = "classicalbacktrack::MatchAttempter::<'a, Input>::run_scm_loop_impl"
+    if not facts.has_body(hf):
+        r.error("anchor %s not found" % hf)
+        return r
+    hb = facts.body(hf)
+    from .lbseq import natural_loops as _nl
+    loops = [(h, ns) for h, ns in _nl(hb).items()
+             if any(x in ns and (t.get("callee") or "").split("::")[-1] == "matches" for x, t in hb.iter_calls())]
+    hdom = hb.dom()
+    key = "%s returns (position after min iterations, position after all)" % hf
+    if len(loops) != 2:
+        r.fail(key, "expected two loops that run the single-character matcher (mandatory and optional iterations), found %d" % len(loops), facts.loc(hf))
+        return r
+    loops.sort(key=lambda x: len(hdom[x[0]]))
+    (h1, n1), (h2, n2) = loops
+    tup = None
+    for bi, i, st in hb.iter_stmts():
+        if st["k"] == "assign" and st["rv"]["k"] == "agg" and st["rv"].get("ak") == "tuple" and len(st["rv"].get("ops") or []) == 2:
+            tup = st
+    probs = []
+    if tup is None:
+        probs.append("the returned pair was not found")
+    else:
+        def def_block(op):
+            if op.get("k") not in ("copy", "move"):
+                return None
+            l = op["pl"]["l"]
+            for _ in range(4):
+                d = hb.single_def(l)
+                if not d or d[2] != "assign" or d[3]["rv"]["k"] != "use" or d[3]["rv"]["op"].get("k") not in ("copy", "move"):
+                    return None
+                src = d[3]["rv"]["op"]["pl"]["l"]
+                if 1 <= src <= hb.argc or len(hb.defs().get(src, [])) > 1:
+                    return d[0]   # the copy out of the running position
+                l = src
+            return None
+        b1, b2 = def_block(tup["rv"]["ops"][0]), def_block(tup["rv"]["ops"][1])
+        if b1 is None or not (h1 in hdom[b1] and b1 not in n1 and (b1 == h2 or b1 in hdom[h2])):
+            probs.append("the first component (the minimum position, the floor for giving characters back) is not read between the loop "
+                         "over the mandatory iterations and the loop over the optional ones")
+        if b2 is None or not (h2 in hdom[b2] and b2 not in n2):
+            probs.append("the second component (the maximum position) is not read after the loop over the optional iterations")
+    if probs:
+        r.fail(key, "; ".join(probs) + " (line %s): a greedy loop gives back characters below its minimum, a lazy one starts with zero "
+                                      "iterations (`^\\w{6}\\d` matches \"abc123\")" % (tup["line"] if tup else "?"), facts.loc(hf))
+    else:
+        r.ok(key, "min position read between the two loops, max position after them")
     return r
 
 
@@ -902,7 +953,9 @@ def check_casesrc(facts):
                               "that constructs one takes its members from unicode::expand_code_point (the fold tables TABLES checks), copies an "
                               "existing CharSet, or is one of two reviewed builders (the empty set; a small bracket that was case-closed when "
                               "parsed). Members computed any other way (ASCII arithmetic, literals) bypass the tables: U+212A/U+017F drop out of "
-                              "k/s under `iu` and the relation stops being symmetric")
+                              "k/s under `iu` and the relation stops being symmetric. Likewise the parser builds an `ir::Node::Char` only "
+                              "inside its case-aware constructor (the function that consults expand_code_point under `i`), so no spelling "
+                              "of a literal (`\\101`) skips the case expansion")
     n = 0
     ntab = 0
     for fn in sorted(facts.body_names()):
@@ -941,6 +994,33 @@ def check_casesrc(facts):
                 r.sample({"function": fn, "line": s["line"], "sources": sorted("/".join(x) for x in srcs)})
     r.floor("charset_constructions", n, 6)
     r.floor("constructions_from_expand_code_point", ntab, 1)
+    # the parser builds a literal character only through its case-aware constructor (the function that consults
+    # expand_code_point under `i`): an `ir::Node::Char` assembled directly in another parser routine skips the case expansion for
+    # that one spelling of the character (`\101` vs `A`)
+    aware = set()
+    nchar = 0
+    for fn in sorted(facts.body_names()):
+        if fn.startswith("parse::") and any((t.get("callee") or "").endswith("unicode::expand_code_point") for _, t in facts.body(fn).iter_calls()):
+            aware.add(re.sub(r"::\{closure#\d+\}", "", fn))
+    for fn in sorted(facts.body_names()):
+        if not fn.startswith("parse::"):
+            continue
+        b = facts.body(fn)
+        base = re.sub(r"::\{closure#\d+\}", "", fn)
+        k = 0
+        for bi, i, s_ in b.iter_stmts():
+            if s_["k"] != "assign" or s_["rv"]["k"] != "agg" or not str(s_["rv"].get("adt", "")).endswith("ir::Node") or str(s_["rv"].get("variant")) != "Char":
+                continue
+            nchar += 1
+            k += 1
+            key = "%s builds Node::Char #%d" % (base, k)
+            if base in aware or facts.owner_of(base) in aware:
+                r.ok(key, "inside the case-aware constructor")
+            else:
+                r.fail(key, "a literal character node is built directly (line %s) instead of through the parser's case-aware constructor "
+                            "(%s): under `/i` this spelling of the character is not case-expanded while every other spelling is" % (
+                                s_["line"], ", ".join(sorted(x.split("::")[-1] for x in aware)) or "none found"), facts.loc(fn, s_["line"]))
+    r.floor("parser_char_nodes", nchar, 2)
     return r
 
 
@@ -1535,6 +1615,124 @@ def check_iterrel(facts):
             else:
                 r.ok(key, "no absolute store to %s" % (sorted(cursor) or "a cursor field"))
     r.floor("iterator_methods_besides_next", nm, 2)
+    return r
+
+
+# ---- ACCUM ----------------------------------------------------------------------------------
+
+def check_accum(facts):
+    r = RuleResult("ACCUM", "a bracket's members are accumulated: a parse.rs function that is handed the class under construction (`&mut "
+                            "BracketContents`) only ever adds to it — its `cps` is touched through CodePointSet::add* alone, never replaced, "
+                            "complemented or cleared, and `invert` is not written there. A negated member (`\\P{..}`, `\\W`) is complemented "
+                            "on its own before it is added; complementing the accumulator instead turns `[a\\P{Ll}]` into "
+                            "not(a ∪ Ll): the members written before the negated one drop out")
+    ADD = {"add", "add_one", "add_set", "add_range", "add_interval"}
+    nf = 0
+    nadd = 0
+    for fn in sorted(facts.body_names()):
+        if not fn.startswith("parse::") or "{closure" in fn:
+            continue
+        b = facts.body(fn)
+        params = [l for l in range(1, b.argc + 1) if b.local_ty(l).replace(" ", "").startswith("&mut") and b.local_ty(l).endswith("BracketContents")]
+        if not params:
+            continue
+        nf += 1
+        probs = []
+        for bb, t in b.iter_calls():
+            for ai, a in enumerate(t["args"]):
+                if a.get("k") not in ("copy", "move"):
+                    continue
+                rt, pr = b.root_of(a["pl"]["l"])
+                fl = [x.get("f") for x in pr if isinstance(x, dict) and "f" in x] + core.proj_fields(a["pl"])
+                if rt not in params or "cps" not in fl:
+                    continue
+                last = (t.get("callee") or "").split("::")[-1]
+                if ai == 0 and last in ADD:
+                    nadd += 1
+                else:
+                    probs.append("line %s: the accumulated set is passed to `%s`" % (t.get("line"), last))
+        for bi, i, st in b.iter_stmts():
+            if st["k"] != "assign" or not st["pl"]["p"]:
+                continue
+            rt, pr = b.root_of(st["pl"]["l"])
+            fl = [x.get("f") for x in pr if isinstance(x, dict) and "f" in x] + core.proj_fields(st["pl"])
+            if rt in params and fl and fl[-1] in ("cps", "invert"):
+                probs.append("line %s: `%s` of the class under construction is overwritten" % (st["line"], fl[-1]))
+        key = "%s only adds to the class it is handed" % fn
+        if probs:
+            r.fail(key, "; ".join(probs[:3]) + " — members accumulated so far are complemented / dropped together with the new one", facts.loc(fn))
+        else:
+            r.ok(key, "cps reached only through add*")
+    r.floor("functions_handed_the_class_under_construction", nf, 1)
+    r.floor("add_calls", nadd, 2)
+    return r
+
+
+# ---- MERGEDEP -------------------------------------------------------------------------------
+
+def check_mergedep(facts):
+    r = RuleResult("MERGEDEP", "in codepointset.rs a function that is handed an Interval and builds an Interval (CodePointSet::add, merge_intervals) "
+                               "computes *each* bound of the result from the Interval(s) it was handed: both `first` and `last` depend, through "
+                               "the data flow (min/max, calls, copies), on every Interval parameter. A merged interval whose `first` is taken "
+                               "from the existing entries alone forgets the part of the new interval that sticks out on the left: "
+                               "`[c-eh-ka-z]` loses a and b")
+    n = 0
+
+    def deps(b, op, depth=0, seen=None):
+        """parameter locals the operand's value depends on"""
+        seen = seen if seen is not None else set()
+        if op.get("k") not in ("copy", "move") or depth > 14:
+            return set()
+        l = op["pl"]["l"]
+        rt, _pr = b.root_of(l)
+        out = set()
+        for x in (l, rt):
+            if 1 <= x <= b.argc:
+                out.add(x)
+        if l in seen:
+            return out
+        seen.add(l)
+        for bi, si, kind, pay in b.defs().get(l, []) + (b.defs().get(rt, []) if rt != l else []):
+            if kind == "call":
+                # an element read out of a container takes its *value* from the container, not from the index that selected it
+                selects = (pay.get("callee") or "").split("::")[-1] in ("index", "index_mut", "get", "get_mut", "get_unchecked", "first", "last")
+                for a in (pay["args"][:1] if selects else pay["args"]):
+                    out |= deps(b, a, depth + 1, seen)
+                continue
+            rv = pay["rv"]
+            ops = [rv[k] for k in ("op", "a", "b") if isinstance(rv.get(k), dict)] + list(rv.get("ops") or [])
+            if "pl" in rv and isinstance(rv["pl"], dict):
+                ops.append({"k": "copy", "pl": rv["pl"]})
+            for o in ops:
+                out |= deps(b, o, depth + 1, seen)
+        return out
+    for fn in sorted(facts.body_names()):
+        if not fn.startswith("codepointset::") or "::tests::" in fn or "{closure" in fn:
+            continue
+        b = facts.body(fn)
+        ivp = [l for l in range(1, b.argc + 1) if re.match(r"^&?(mut )?codepointset::Interval$", b.local_ty(l))]
+        if not ivp:
+            continue
+        k = 0
+        for bi, i, st in b.iter_stmts():
+            if st["k"] != "assign" or st["rv"]["k"] != "agg" or not str(st["rv"].get("adt", "")).endswith("codepointset::Interval"):
+                continue
+            k += 1
+            n += 1
+            key = "%s Interval #%d built from the interval(s) handed in" % (fn, k)
+            bad = []
+            for fname, op in zip(st["rv"].get("fields") or [], st["rv"].get("ops") or []):
+                d = deps(b, op)
+                miss = [b.local_name(l) or "_%d" % l for l in ivp if l not in d]
+                if miss:
+                    bad.append("`%s` does not depend on %s" % (fname, ", ".join("`%s`" % m for m in miss)))
+            if bad:
+                r.fail(key, "line %s: %s — the part of that interval beyond the existing entries is lost from the set" % (st["line"], "; ".join(bad)),
+                       facts.loc(fn, st["line"]))
+            else:
+                r.ok(key, "both bounds depend on %s" % ", ".join(b.local_name(l) or "_%d" % l for l in ivp))
+                r.sample({"function": fn, "line": st["line"]})
+    r.floor("intervals_built_from_an_interval_parameter", n, 1)
     return r
 
 
